@@ -3,6 +3,67 @@ import os, re, time, json, shutil
 import core
 from core import log
 
+# ----------------------------------------------------------------------------- design models
+def d_tlc(name, module, cfg, dom, subdir="mc", expect="ok", thorough_only=False, workers=6):
+    def runit(d, tier):
+        r = core.tlc_model_dir(subdir, module, cfg, dom, workers=workers, timeout=1500)
+        if expect == "violated":
+            res = "refuted-as-expected" if r["violated"] else "unexpectedly-holds"
+            return dict(result=res, states=r["states"], transitions=r["transitions"],
+                        note="documents a recorded/repaired defect of the original design")
+        return dict(result="violated" if r["violated"] else "ok", states=r["states"], transitions=r["transitions"],
+                    detail=r["out"] if r["violated"] else "")
+    return dict(name=name, run=runit, thorough_only=thorough_only)
+
+
+def d_apa(name, module, cinit, inv, expect="ok", thorough_only=False):
+    def runit(d, tier):
+        r = core.apalache(module, cinit, inv, timeout=400)
+        if r["result"] == "timeout":
+            return dict(result="inconclusive-timeout", note=r["note"])
+        if expect == "violated":
+            return dict(result="refuted-as-expected" if r["result"] == "violated" else "unexpectedly-holds")
+        return dict(result=r["result"], detail=r.get("detail", ""), note="Apalache, all operands at H = 2^64, %.0fs" % r["wall"])
+    return dict(name=name, run=runit, thorough_only=thorough_only)
+
+
+D_SEM = d_tlc("MC_Sem: layer M against first principles, every operand, widths 2..6", "MC_Sem", "MC_Sem.cfg", "int")
+D_MUL = [
+    d_tlc("MulLimbs (TLC, signed, H=8, every limb tuple): recombination, combine_lo_then_shl, repaired assertion",
+          "MulLimbs", "MulLimbs_tlc_TRUE_8.cfg", "int", subdir="apa"),
+    d_tlc("MulLimbs (TLC, unsigned, H=8)", "MulLimbs", "MulLimbs_tlc_FALSE_8.cfg", "int", subdir="apa"),
+    d_apa("MulLimbs (Apalache, i128, all operands): limbs recombine to the exact 256-bit product", "AP_MulLimbs.tla", "CInitS", "Recombine"),
+    d_apa("MulLimbs (Apalache, u128, all operands): limbs recombine to the exact 256-bit product", "AP_MulLimbs.tla", "CInitU", "Recombine"),
+    d_apa("MulLimbs (Apalache, i128): the repaired shift_lo_up assertion cannot fire", "AP_MulLimbs.tla", "CInitS", "AssertFixed"),
+    d_apa("MulLimbs (Apalache, i128): the ORIGINAL assertion is reachable (carry = -1)", "AP_MulLimbs.tla", "CInitS", "AssertOriginal",
+          expect="violated"),
+]
+D_DIV = [
+    d_tlc("DivHalf (TLC, H=8, every (d, r, next half)): quotient digit and remainder exact", "DivHalf", "DivHalf_tlc_8.cfg", "int", subdir="apa"),
+    d_tlc("DivHalf (TLC, H=16)", "DivHalf", "DivHalf_tlc_16.cfg", "int", subdir="apa", thorough_only=True),
+    d_apa("DivHalf (Apalache, all operands at H = 2^64)", "AP_DivHalf.tla", "CInit", "StepExact"),
+]
+D_EUCLID = [
+    d_tlc("MC_Euclid: as-coded div_euclid family = M wherever the truncated quotient fits (exact region of the finding)",
+          "MC_Euclid", "MC_Euclid.cfg", "int"),
+    d_tlc("MC_Euclid_refute: as-coded = M everywhere", "MC_Euclid", "MC_Euclid_refute.cfg", "int", expect="violated"),
+]
+D_CMP = [
+    d_tlc("MC_Cmp: comparison as repaired = exact rational comparison, 900 layout pairs x all values", "MC_Cmp", "MC_Cmp.cfg", "int"),
+    d_tlc("MC_Cmp_refute: comparison as originally coded", "MC_Cmp", "MC_Cmp_refute.cfg", "int", expect="violated"),
+]
+D_FMT = [
+    d_tlc("MC_Fmt: decimal digit generation as repaired = correctly rounded, every value of the 8-bit layouts", "MC_Fmt", "MC_Fmt.cfg", "big"),
+    d_tlc("MC_Fmt_refute: with the original near-zero shortcut", "MC_Fmt", "MC_Fmt_refute.cfg", "big", expect="violated"),
+]
+D_WRAPVM = [d_tlc("MC_WrapVM: register machine, all programs of <= 3 steps on 9 small layouts (TypeOK, RingHom, OnlyZeroDiv)",
+                  "MC_WrapVM", "MC_WrapVM.cfg", "int")]
+DESIGNS = {
+    "C01": [D_SEM] + D_MUL + D_DIV, "C02": [D_SEM] + D_MUL[:2], "C03": [D_SEM] + D_CMP, "C04": [D_SEM], "C06": [D_SEM],
+    "C07": [D_SEM] + D_EUCLID, "C09": D_FMT, "C11": D_MUL[2:6], "C18": D_WRAPVM,
+}
+
+
 ARITH_OPS = {
     "C01": "mul,div",
     "C02": "neg,abs,add,sub,mul,div,mul_int,div_int",
@@ -289,6 +350,8 @@ def describe(ev):
 def run_check(pid, tier, seed, replay=None):
     t0 = time.time()
     plan = PLANS[pid](tier, seed)
+    if not plan.get("designs"):
+        plan["designs"] = DESIGNS.get(pid, [])
     wdir = os.path.join(core.WORK, pid)
     shutil.rmtree(wdir, ignore_errors=True)
     os.makedirs(wdir, exist_ok=True)
@@ -311,6 +374,7 @@ def run_check(pid, tier, seed, replay=None):
                                 result=r["result"], note=r.get("note", "")))
         dstates += r.get("states", 0)
         dtrans += r.get("transitions", 0)
+        log("[%s] design model: %s -> %s" % (pid, d["name"], r["result"]))
         if r["result"] == "violated":
             violations.append(dict(kind="design", model=d["name"], detail=r.get("detail", "")[-3000:]))
     # ---- conformance: traces of the real library validated by TLC
